@@ -79,7 +79,12 @@ Inductive stmt :=
 | UDeleteRel (keys : list rkey)                                 (* DELETE r *)
 | UMergeNode (rows : list (list N * list (N * oval) * list (N * oval) * list (N * oval)))
 | USetRelProp (rows : list (rkey * N * oval))                   (* MATCH (a)-[r]->(b) SET r.k = v, one row per parallel relationship *)
-| UMergeRel (rows : list (rkey * list (N * oval) * list (N * oval) * list (N * oval))).
+| UMergeRel (rows : list (rkey * list (N * oval) * list (N * oval) * list (N * oval)))
+| USetRelMap (rows : list (rkey * bool * list (N * oval)))      (* SET r = map (false) / r += map (true) *)
+| URemoveRelProp (rows : list (rkey * N))                       (* REMOVE r.k *)
+| UChain (clauses : list stmt).                                 (* several SET / REMOVE clauses in ONE statement (execute_mixed):
+                                                                   every clause sees the rows as the earlier clauses left them;
+                                                                   each node / relationship occurs in at most one row *)
                                                                 (* MATCH (a),(b) MERGE (a)-[r:t {ps}]->(b) ON CREATE SET oc ON MATCH SET om *)
                                                                 (* MERGE (n:ls {ps}) ON CREATE SET oc ON MATCH SET om *)
 
@@ -213,20 +218,42 @@ Fixpoint rel_merge_create (k : rkey) (ps oc : list (N * oval)) (l : list (rkey *
   | (k', (m, p)) :: t =>
       if rkey_eqb k' k then (k', (m + 1, set_all (raw_set p ps) oc)) :: t else (k', (m, p)) :: rel_merge_create k ps oc t
   end.
-Definition merge_rel_row (acc : graph * N)
-           (r : rkey * list (N * oval) * list (N * oval) * list (N * oval)) : graph * N :=
-  let '(g, c) := acc in let '(key, ps, oc, om) := r in
-  let matched :=
-    match rfind_pre key (gr g) with
-    | Some (_, p) => forallb (fun kv => match pget (fst kv) p with Some w => pv_eq w (snd kv) | None => false end) ps
-    | None => false
-    end in
-  if matched then (mkGraph (gn g) (rmap key (fun p => set_all p om) (gr g)) (gnext g) (gcat g), c)
-  else (mkGraph (gn g) (rel_merge_create key ps oc (gr g)) (gnext g) (gcat g), c + 1).
+(* MERGE of a relationship, any number of rows.  A row matches when the key existed BEFORE the
+   statement with matching properties (the executor reads the snapshot), or when an earlier row of
+   the same statement created the key with a pattern map that matches (the executor keeps the
+   relationships it created, each with its own pattern map, in an overlay).  ON MATCH / ON CREATE
+   items write to the key's single property map. *)
+Definition ps_match (have : props) (ps : list (N * oval)) : bool :=
+  forallb (fun kv => match pget (fst kv) have with Some w => pv_eq w (snd kv) | None => false end) ps.
+Definition merge_rel_row (pre : graph) (acc : graph * N * list (rkey * props))
+           (r : rkey * list (N * oval) * list (N * oval) * list (N * oval)) : graph * N * list (rkey * props) :=
+  let '(g, c, ov) := acc in let '(key, ps, oc, om) := r in
+  let snap_match :=
+    match rfind_pre key (gr pre) with Some (_, p) => ps_match p ps | None => false end in
+  let ov_match := existsb (fun e => rkey_eqb (fst e) key && ps_match (snd e) ps) ov in
+  if snap_match || ov_match
+  then (mkGraph (gn g) (rmap key (fun p => set_all p om) (gr g)) (gnext g) (gcat g), c, ov)
+  else (mkGraph (gn g) (rel_merge_create key ps oc (gr g)) (gnext g) (gcat g), c + 1, ov ++ [(key, raw_set [] ps)]).
+
+Definition remove_rel_prop_row (pre : graph) (acc : graph * N) (r : rkey * N) : graph * N :=
+  let '(g, c) := acc in let '(key, k) := r in
+  (mkGraph (gn g) (rmap key (pdel k) (gr g)) (gnext g) (gcat g),
+   if has_key k (rprops pre key) then c + 1 else c).
+Definition set_rel_map_row (pre : graph) (acc : graph * N) (r : rkey * bool * list (N * oval)) : graph * N :=
+  let '(g, c) := acc in let '(key, append, m) := r in
+  let existing := rprops pre key in
+  let target := map_target existing append m in
+  let removed := filter (fun kv => negb (has_key (fst kv) target)) existing in
+  let changed := filter (fun kv => match pget (fst kv) existing with
+                                   | Some w => negb (pv_eq w (snd kv))
+                                   | None => true end) target in
+  (mkGraph (gn g) (rmap key (fun p => set_all (fold_left (fun p kv => pdel (fst kv) p) removed p) changed) (gr g))
+           (gnext g) (gcat g),
+   c + N.of_nat (length removed) + N.of_nat (length changed)).
 
 Definition done (p : graph * N) : outcome := Done (fst p) (snd p).
 
-Definition exec (g : graph) (s : stmt) : outcome :=
+Definition exec1 (g : graph) (s : stmt) : outcome :=
   match s with
   | UCreateNode rows => done (fold_left create_node_row rows (g, 0))
   | UCreateRel rows => done (fold_left create_rel_row rows (g, 0))
@@ -239,7 +266,23 @@ Definition exec (g : graph) (s : stmt) : outcome :=
   | UDeleteRel keys => delete_rels g keys
   | UMergeNode rows => done (fold_left merge_node_row rows (g, 0))
   | USetRelProp rows => done (fold_left (set_rel_prop_row g) rows (g, 0))
-  | UMergeRel rows => done (fold_left merge_rel_row rows (g, 0))
+  | UMergeRel rows => done (fst (fold_left (merge_rel_row g) rows (g, 0, [])))
+  | USetRelMap rows => done (fold_left (set_rel_map_row g) rows (g, 0))
+  | URemoveRelProp rows => done (fold_left (remove_rel_prop_row g) rows (g, 0))
+  | UChain _ => Failed                                  (* handled by exec *)
+  end.
+
+(* a chain runs its clauses one after the other on the graph the earlier clauses produced and
+   adds the counts up; it fails (and changes nothing) if a clause fails *)
+Fixpoint exec_chain (g : graph) (c : N) (cs : list stmt) : outcome :=
+  match cs with
+  | [] => Done g c
+  | s :: t => match exec1 g s with Done g' c' => exec_chain g' (c + c') t | Failed => Failed end
+  end.
+Definition exec (g : graph) (s : stmt) : outcome :=
+  match s with
+  | UChain cs => exec_chain g 0 cs
+  | _ => exec1 g s
   end.
 
 (* a failed statement leaves the graph unchanged (the transaction is dropped) *)
